@@ -123,16 +123,25 @@ def nontrivial(case, out):
 def run(ctx):
     # layer 2 (change notifications and the parties tracking them) adds its violations and coverage first;
     # layer 1 (the AccessMode algebra) then runs and writes the verdict for both
-    from props import c05notify
+    # layer 3 (the handlers that interpret a client-supplied default-access mode text) likewise
+    from props import c05notify, c05sites
+    if c05sites.is_replay(ctx):
+        c05sites.run_layer3(ctx)
+        ctx.coq_props()
+        vlib.proof_violation(ctx)
+        ctx.finish()
     if not c05notify.is_l1_replay(ctx):
         c05notify.run_layer2(ctx)
     if c05notify.is_l2_replay(ctx):
         ctx.coq_props()
         vlib.proof_violation(ctx)
         ctx.finish()
+    if not ctx.replay:
+        c05sites.run_layer3(ctx)
     purelib.run_pure(
         ctx, "c05", gen_cases, monitors, neighbours, nontrivial,
         rule="all 258 modes through MarshalText; all 256x256 (old,new) pairs through Delta+ApplyDelta; every string of length <=4 (quick) / <=5 (thorough) over {J,r,W,N,n,+,-,x,?} and seeded random mostly-valid strings of length 1..14 with a 15% junk insertion, each through ParseAcs (also upper/lower-cased), UnmarshalText, ApplyMutation, ApplyDelta; non-trivial = accepted by the implementation and non-empty",
         trusted=["harness/ext/c05.go (calls types.ParseAcs/MarshalText/UnmarshalText/Delta/ApplyDelta/ApplyMutation of /repo)",
                  "tools/props/c05.py law monitors (python restatement of the theorems, evaluated on the implementation's answers)",
+                 "layer 3 (handlers interpreting a default-access mode text): see coverage.layer3.trusted_base",
                  "notifySubChange's dWant/dGiven strings are modelled by Acs.notify_string; their tie to the code is the product harness (C06/C07 runs compare every acs/dacs string), not this driver"])
